@@ -786,6 +786,11 @@ func (vfs *MemFS) RemoveAll(path string) error {
 	parent.mu.Lock()
 	defer parent.mu.Unlock()
 
+	// The name may have been removed or given to another node since it was looked up : nothing to remove.
+	if parent.children[pi.Part()] != child {
+		return nil
+	}
+
 	if c, ok := child.(*dirNode); ok {
 		c.mu.RLock()
 		empty := len(c.children) == 0
